@@ -65,6 +65,11 @@ func main() {
 	if *selftest {
 		return
 	}
+	if *canary == "stale" {
+		runCanaryStale()
+		fmt.Println("canary finished without a race report")
+		return
+	}
 	if *canary != "" {
 		runCanary(*canary == "shared")
 		fmt.Println("canary finished without a race report")
